@@ -77,6 +77,10 @@ Definition go_sbyte (s : string) (i : Z) : Z := go_sbyte_nat s (Z.to_nat i).
 Inductive go_issue := GoError | GoWarning | GoTimeCheck.
 Definition go_err_isnil (e : option string) : bool := match e with None => true | Some _ => false end.
 
+(* a map to the empty struct used as a set: the list of its members in the order they went in *)
+Definition go_smem (s : list string) (k : string) : bool := existsb (String.eqb k) s.
+Definition go_sadd (s : list string) (k : string) : list string := if go_smem s k then s else (s ++ [k])%list.
+
 (* s[lo:hi] of a string *)
 Definition go_substr (s : string) (lo hi : Z) : string := substring (Z.to_nat lo) (Z.to_nat hi - Z.to_nat lo) s.
 (* l == nil for a slice (a nil slice and an empty one are the same list) *)
